@@ -642,3 +642,87 @@ R("endblock-validators-aimed-once", ["C07"],
 		app.logger.Detailf("Sending events with nodes to tendermint: %+v\\n", events)
 
 		vals.ClearEvents()"""))
+
+# ------------------------------------------------------------------ C11
+M("withdraw-drop-frozen", "C11", "C11.frozen",
+  ("action/staking/withdraw.go", """	if ctx.EvidenceStore.IsFrozenValidator(draw.ValidatorAddress) {
+		return false, action.Response{Log: evidence.ErrFrozenValidator.Error()}
+	}
+""", """	_ = evidence.ErrFrozenValidator
+"""))
+M("stake-frozen-checks-stake-address", "C11", "C11.frozen",
+  ("action/staking/stake.go", """	if ctx.EvidenceStore.IsFrozenValidator(st.ValidatorAddress) {""", """	if ctx.EvidenceStore.IsFrozenValidator(st.StakeAddress) {"""))
+M("unstake-no-maturity", "C11", "C11.unstake.maturity",
+  ("action/staking/unstake.go", """ust.Stake.Value, height+options.MaturityTime)""", """ust.Stake.Value, height+options.TopValidatorCount)"""))
+M("withdraw-debits-effective", "C11", "C11.store.withdraw",
+  ("data/delegation/store.go", """	delegatorBoundCoin, err := st.GetDelegatorBoundedAmount(delegatorAddress)
+	if err != nil {
+		return err
+	}
+
+	// withdraw amount for unstake from bound amount""", """	delegatorBoundCoin, err := st.GetDelegatorEffectiveAmount(delegatorAddress)
+	if err != nil {
+		return err
+	}
+
+	// withdraw amount for unstake from bound amount"""))
+M("withdraw-credit-before-debit", "C11", "C11.withdraw.paid",
+  ("action/staking/withdraw.go", """	err = ctx.Delegators.Withdraw(draw.ValidatorAddress, draw.StakeAddress, draw.Stake.Value)
+	if err != nil {
+		return false, action.Response{Log: errors.Wrap(err, draw.StakeAddress.String()).Error()}
+	}
+
+	err = ctx.Balances.AddToAddress(draw.StakeAddress, coin)
+	if err != nil {
+		return false, action.Response{Log: errors.Wrap(err, "add to balance").Error()}
+	}
+""", """	err = ctx.Balances.AddToAddress(draw.StakeAddress, coin)
+	if err != nil {
+		return false, action.Response{Log: errors.Wrap(err, "add to balance").Error()}
+	}
+
+	err = ctx.Delegators.Withdraw(draw.ValidatorAddress, draw.StakeAddress, draw.Stake.Value)
+	if err != nil {
+		ctx.Logger.Error(errors.Wrap(err, draw.StakeAddress.String()).Error())
+	}
+"""))
+M("mature-no-reset", "C11", "C11.store.mature",
+  ("data/delegation/store.go", """		st.SetMatureAmounts(height, mature)
+	}
+}""", """		st.SetMatureAmounts(height+1, mature)
+	}
+}"""))
+M("minus-skips-delegator-total", "C11", "C11.store.threeway",
+  ("data/delegation/store.go", """	// update a new vd effective amount
+	err = st.SetDelegatorEffectiveAmount(delegatorAddress, *newDelegatedEffectiveCoin)""", """	// update a new vd effective amount
+	err = st.SetDelegatorEffectiveAmount(validatorAddress, *newDelegatedEffectiveCoin)"""))
+M("unstake-entry-before-debit-check", "C11", "C11.store.unstake",
+  ("data/delegation/store.go", """	err := st.MinusFromAddress(validatorAddress, delegatorAddress, coin)
+	if err != nil {
+		return err
+	}
+	// st_m_ operation""", """	err := st.MinusFromAddress(validatorAddress, delegatorAddress, coin)
+	if err != nil && coin.BigInt().Sign() == 0 {
+		return err
+	}
+	// st_m_ operation"""))
+R("withdraw-frozen-helper", ["C11"],
+  ("action/staking/withdraw.go", """	if ctx.EvidenceStore.IsFrozenValidator(draw.ValidatorAddress) {
+		return false, action.Response{Log: evidence.ErrFrozenValidator.Error()}
+	}
+""", """	if err := ensureNotFrozen(ctx, draw); err != nil {
+		return false, action.Response{Log: err.Error()}
+	}
+"""),
+  ("action/staking/withdraw.go", """func runWithdraw(ctx *action.Context, tx action.RawTx) (bool, action.Response) {""", """func ensureNotFrozen(ctx *action.Context, draw *Withdraw) error {
+	if frozen := ctx.EvidenceStore.IsFrozenValidator(draw.ValidatorAddress); frozen {
+		return evidence.ErrFrozenValidator
+	}
+	return nil
+}
+
+func runWithdraw(ctx *action.Context, tx action.RawTx) (bool, action.Response) {"""))
+R("unstake-maturity-local", ["C11"],
+  ("action/staking/unstake.go", """	err = ctx.Delegators.Unstake(ust.ValidatorAddress, ust.StakeAddress, ust.Stake.Value, height+options.MaturityTime)""",
+   """	matureAt := options.MaturityTime + height
+	err = ctx.Delegators.Unstake(ust.ValidatorAddress, ust.StakeAddress, ust.Stake.Value, matureAt)"""))
